@@ -3528,12 +3528,12 @@ class SourceCatalog:
         """
         semimajor_sig = self.semimajor_sigma.value
         kron_radius = self.kron_radius.value
-        radius = semimajor_sig * kron_radius * self.kron_params[0]
+        # atleast_1d: the product is a numpy scalar for a scalar catalog
+        radius = np.atleast_1d(semimajor_sig * kron_radius
+                               * self.kron_params[0])
         mask = radius == 0
         if np.any(mask):
             radius[mask] = self.kron_params[2]
-        if self.isscalar:
-            radius = np.array([radius])
         return radius
 
     @staticmethod
